@@ -244,13 +244,21 @@ theorem relative_within (src dst : Shape) (back fwd : PtTr) (pps : Nat) (pad : I
 
 
 /-- **Coverage for an abstract (possibly non-linear) point transform — partial.**
-Full statement wanted: for the real cross-CRS transform every destination pixel whose centre
-maps inside the source lies in `roi_dst` and its source location in `roi_src`.  Proved here
-under the two explicit envelope hypotheses `henvS` / `henvD` (the image of the pixel centre lies
-in the envelope of the sampled boundary images grown by `padding`; the centre lies in the
-envelope of the forward images of the source-region boundary samples).  These are exactly what
-the curvature of a real projection can break; they are *proved* for affine maps in
-`linear_covers` and only *sampled* (harness oracle, pyproj) across CRSs. -/
+Full statement wanted: for the real cross-CRS transform every destination pixel whose centre maps inside the source lies
+in `roi_dst` and its source location in `roi_src`.
+
+What is missing, exactly: *control of the transform BETWEEN the 16 boundary samples* (5 per side).  The plan is the
+envelope of the images of those samples (`relative_samples_covered` proves that every sampled point that falls in the
+image is inside `roi_src`, with its padding neighbourhood).  A pixel centre is covered as soon as its image lies in that
+envelope grown by `padding` (`henvS`), resp. the centre lies in the unpadded envelope of the forward images of the
+samples of `roi_src`'s boundary (`henvD`).  For an affine map both hold for every interior point, because an affine
+function on a rectangle is extremal at a corner and the corners are samples (`linear_covers`: the FULL statement).  For a
+real projection an edge maps to a curve whose extreme may lie between two samples; the excess over the sampled extreme
+(the sagitta of the arc between neighbouring samples) is not bounded by anything the code computes — it exceeds the
+1-pixel padding for long thin destinations and large extents (known finding `xcrs-curved-edge-sliver-dropped`), and
+`roi_dst` has no padding at all.  No hypothesis on the abstract transform short of `henvS ∧ henvD` themselves (or a
+quantitative curvature bound per projection, which pyproj does not provide) closes the gap, so the theorem is stated
+under exactly these two hypotheses; the harness samples them with an independent pyproj oracle. -/
 theorem nonlinear_covers_partial (src dst : Shape) (back fwd : PtTr) (pps : Nat) (pad : Int) (al : Option Int)
     (hal : ∀ a, al = some a → 0 < a) (dy dx : Int) (hdy : 0 ≤ dy ∧ dy < dst.1) (hdx : 0 ≤ dx ∧ dx < dst.2)
     (q : Rat × Rat) (hqx : 0 ≤ q.1 ∧ q.1 < src.2) (hqy : 0 ≤ q.2 ∧ q.2 < src.1)
@@ -654,6 +662,153 @@ theorem nonlinear_plan (src dst : Shape) (back fwd : PtTr) (scaleAt : Rat × Rat
       subst h
       exact ⟨rfl, read_shrink_pos_int _ _ _ hrs, rfl⟩
 
+/-! ## sampled boundary points, `roi_center`, `get_scale_at_point` -/
+
+/-- **Every sampled boundary point is covered.**  When the padded envelope of the samples is not empty, the source region
+of `_relative_rois` is the aligned padded envelope, and every finite sample that falls in the source image lies in it
+together with its `padding` neighbourhood (clamped to the image) — whatever the transform does between the samples. -/
+theorem relative_samples_covered (src dst : Shape) (back fwd : PtTr) (pps : Nat) (pad : Int) (al : Option Int)
+    (hp : 0 ≤ pad) (hal : ∀ a, al = some a → 0 < a)
+    (hne : ROI.isEmpty (fromPoints (srcSamples dst back pps) src.1 src.2 pad none) = false)
+    (x y : Rat) (hmem : (Coord.fin x, Coord.fin y) ∈ srcSamples dst back pps)
+    (hx : 0 ≤ x ∧ x ≤ src.2) (hy : 0 ≤ y ∧ y ≤ src.1) :
+    let r := relativeRois src dst back fwd pps pad al
+    r.1 = fromPoints (srcSamples dst back pps) src.1 src.2 pad al ∧
+    ((r.1.2.start : Rat) ≤ max 0 (x - pad) ∧ min (src.2 : Rat) (x + pad) ≤ r.1.2.stop) ∧
+    ((r.1.1.start : Rat) ≤ max 0 (y - pad) ∧ min (src.1 : Rat) (y + pad) ≤ r.1.1.stop) := by
+  have c := from_points_contains (srcSamples dst back pps) src.1 src.2 pad al x y hmem hx hy hp hal
+  have e : (relativeRois src dst back fwd pps pad al).1 =
+      fromPoints (srcSamples dst back pps) src.1 src.2 pad al := by
+    unfold srcSamples at hne ⊢
+    simp only [relativeRois, hne, Bool.false_eq_true, and_false, if_false]
+    split_ifs <;> rfl
+  simp only
+  rw [e]
+  exact ⟨rfl, c⟩
+
+/-- **The scale is estimated at `roi_center(roi_dst)`.**  In the cross-CRS branch with a non-empty destination region the
+point handed to `get_scale_at_point` is `(roi_center x-slice, roi_center y-slice)` of `roi_dst` as computed by C17's
+`slice_center` (no sign flip, no swap of axes), `scale` is the smaller component and read-shrink is `_pick_read_scale` of
+it. -/
+theorem nonlinear_scale_point_is_roi_center (src dst : Shape) (back fwd : PtTr) (scaleAt : Rat × Rat → Rat × Rat)
+    (padding align : Option Int) (p : Plan) (hs : 0 ≤ src.1 ∧ 0 ≤ src.2) (hd : 0 ≤ dst.1 ∧ 0 ≤ dst.2)
+    (h : reprojectNonlinear src dst back fwd scaleAt padding align = .ok p)
+    (hne : ROI.isEmpty p.roiDst = false) :
+    ∃ cx cy : Rat, sliceCenter (.slc (some p.roiDst.2.start) (some p.roiDst.2.stop)) = .ok cx ∧
+      sliceCenter (.slc (some p.roiDst.1.start) (some p.roiDst.1.stop)) = .ok cy ∧
+      p.scale2 = scaleAt (cx, cy) ∧ p.scale = min p.scale2.1 p.scale2.2 ∧
+      pickReadScale p.scale = .ok p.readShrink := by
+  have w := relative_within src dst back fwd 5 (padOr1 padding) (normAlign align) hs hd
+  obtain ⟨_, _, hr⟩ := nonlinear_plan src dst back fwd scaleAt padding align p h
+  unfold reprojectNonlinear at h
+  dsimp only at h
+  have e2 : (relativeRois src dst back fwd 5 (padOr1 padding) (normAlign align)).2 = p.roiDst := by rw [← hr]
+  have e1 : (relativeRois src dst back fwd 5 (padOr1 padding) (normAlign align)).1 = p.roiSrc := by rw [← hr]
+  rw [e2, e1] at h
+  simp only at w
+  rw [e2] at w
+  simp only [hne, Bool.false_eq_true, not_false_eq_true, if_true] at h
+  have cxe := center_eq p.roiDst.2.start p.roiDst.2.stop ⟨w.2.2.1, by
+    have := w.2.2.2
+    by_contra hc
+    simp only [ROI.isEmpty, Bool.or_eq_false_iff, decide_eq_false_iff_not] at hne
+    omega⟩
+  have cye := center_eq p.roiDst.1.start p.roiDst.1.stop ⟨w.2.1.1, by
+    by_contra hc
+    simp only [ROI.isEmpty, Bool.or_eq_false_iff, decide_eq_false_iff_not] at hne
+    omega⟩
+  refine ⟨_, _, cxe, cye, ?_⟩
+  split at h
+  · simp at h
+  · rename_i rs hrs
+    simp only [Except.ok.injEq] at h
+    have hsc2 := congrArg Plan.scale2 h
+    have hsc := congrArg Plan.scale h
+    have hrsq := congrArg Plan.readShrink h
+    simp only at hsc2 hsc hrsq
+    refine ⟨hsc2.symm, ?_, ?_⟩
+    · rw [← hsc, ← hsc2]
+    · rw [← hsc, ← hrsq]; exact hrs
+
+/-- With an empty destination region the cross-CRS plan reports `scale = 0`, `scale2 = (0, 0)` and read-shrink 1. -/
+theorem nonlinear_empty_scale (src dst : Shape) (back fwd : PtTr) (scaleAt : Rat × Rat → Rat × Rat)
+    (padding align : Option Int) (p : Plan)
+    (h : reprojectNonlinear src dst back fwd scaleAt padding align = .ok p) (he : ROI.isEmpty p.roiDst = true) :
+    p.scale = 0 ∧ p.scale2 = (0, 0) ∧ p.readShrink = 1 := by
+  obtain ⟨_, _, hr⟩ := nonlinear_plan src dst back fwd scaleAt padding align p h
+  unfold reprojectNonlinear at h
+  dsimp only at h
+  have e2 : (relativeRois src dst back fwd 5 (padOr1 padding) (normAlign align)).2 = p.roiDst := by rw [← hr]
+  rw [e2] at h
+  simp only [he, not_true_eq_false, if_false, Except.ok.injEq] at h
+  exact ⟨(congrArg Plan.scale h).symm, (congrArg Plan.scale2 h).symm, (congrArg Plan.readShrink h).symm⟩
+
+/-- **`affine_from_pts` on the stencil recovers an affine map exactly**: all six coefficients, for every stencil centre
+and radius `r ≠ 0` (however far from the origin: there is no conditioning in exact arithmetic). -/
+theorem stencil_exact_for_affine (A : Aff) (pt : Rat × Rat) (r : Rat) (hr : r ≠ 0) :
+    stencilAffine A.apply pt r = A := by
+  obtain ⟨a, b, c, d, e, f⟩ := A
+  simp only [stencilAffine, Aff.apply]
+  have h2 : (2 : Rat) * r ≠ 0 := by intro h; apply hr; linarith
+  ext <;> simp only <;> field_simp <;> ring
+
+/-- so `get_scale_at_point` of an affine transform is `get_scale_from_linear_transform` of it, at every point -/
+theorem scale_at_point_affine (A : Aff) (pt : Rat × Rat) (r n : Rat) (hr : r ≠ 0) :
+    scaleAtPoint A.apply pt r n = scale2 A n := by
+  simp only [scaleAtPoint, stencil_exact_for_affine A pt r hr]
+
+/-- **The closed form IS the least-squares fit**: for ANY transform the residuals of the fitted map on the five stencil
+points satisfy the normal equations of `lstsq([x y 1], Y)` — they sum to zero and are orthogonal to the `x` and to the
+`y` column — in both output coordinates. -/
+theorem stencil_normal_equations (tr : Rat × Rat → Rat × Rat) (pt : Rat × Rat) (r : Rat) (hr : r ≠ 0) :
+    let F := stencilAffine tr pt r
+    let res := (stencilPts pt r).map fun q => ((tr q).1 - (F.apply q).1, (tr q).2 - (F.apply q).2)
+    let xs := (stencilPts pt r).map (·.1)
+    let ys := (stencilPts pt r).map (·.2)
+    (res.map (·.1)).sum = 0 ∧ (res.map (·.2)).sum = 0 ∧
+    ((List.zipWith (· * ·) xs (res.map (·.1))).sum = 0 ∧ (List.zipWith (· * ·) ys (res.map (·.1))).sum = 0) ∧
+    ((List.zipWith (· * ·) xs (res.map (·.2))).sum = 0 ∧ (List.zipWith (· * ·) ys (res.map (·.2))).sum = 0) := by
+  have h2 : (2 : Rat) * r ≠ 0 := by intro h; apply hr; linarith
+  simp only [stencilPts, stencilAffine, Aff.apply, List.map_cons, List.map_nil, List.sum_cons, List.sum_nil,
+    List.zipWith_cons_cons, List.zipWith_nil_right]
+  refine ⟨?_, ?_, ⟨?_, ?_⟩, ⟨?_, ?_⟩⟩ <;> field_simp <;> ring
+
+/-! ## `_pick_read_scale`: truncation, not rounding -/
+
+/-- **Read-shrink is 1 for every scale below `2 − tol`** (`tol ≥ 0`): nothing is read from an overview unless the
+destination pixels are (within `tol` of) at least twice the source pixels. -/
+theorem read_shrink_one_below_two (scale tol : Rat) (rs : Int) (h : pickReadScale scale tol = .ok rs)
+    (htol : 0 ≤ tol) (hlt : scale < 2 - tol) : rs = 1 := by
+  rcases pickReadScale_cases scale tol rs h with ⟨_, rfl⟩ | ⟨hs, k⟩
+  · rfl
+  · have f1 := Rat.floor_le scale
+    have hfl : 1 ≤ scale.floor := by rw [Rat.le_floor_iff]; exact_mod_cast hs
+    rcases k with rfl | ⟨_, k2, k3⟩
+    · by_contra hc
+      have : (2 : Int) ≤ scale.floor := by omega
+      have : (2 : Rat) ≤ (scale.floor : Rat) := by exact_mod_cast this
+      linarith
+    · -- snapping up needs `1 - frac < tol`, i.e. `scale > ⌊scale⌋ + 1 - tol ≥ 2 - tol`
+      have hfq : (1 : Rat) ≤ (scale.floor : Rat) := by exact_mod_cast hfl
+      have hneg : scale - scale.floor - 1 < 0 := by linarith
+      have k2' : -(scale - scale.floor - 1) < tol := by simpa [rabs, hneg] using k2
+      linarith
+
+/-- **Truncation, not rounding.**  For `scale ≥ 1` whose fractional part is at most `1 − tol` (not within `tol` below the
+next integer) read-shrink is exactly `⌊scale⌋`: `2.6 ↦ 2`, `2.9 ↦ 2`, never `3`. -/
+theorem read_shrink_truncates (scale tol : Rat) (rs : Int) (h : pickReadScale scale tol = .ok rs)
+    (hs : 1 ≤ scale) (hfrac : scale - scale.floor ≤ 1 - tol) : rs = scale.floor := by
+  rcases pickReadScale_cases scale tol rs h with ⟨hlt, _⟩ | ⟨_, k⟩
+  · linarith
+  · rcases k with rfl | ⟨_, k2, k3⟩
+    · rfl
+    · have hneg : scale - scale.floor - 1 < 0 := by
+        have f2 : scale < (scale.floor : Rat) + 1 := by
+          have := Rat.lt_floor_add_one scale; push_cast at this; exact this
+        linarith
+      have k2' : -(scale - scale.floor - 1) < tol := by simpa [rabs, hneg] using k2
+      linarith
+
 /-! ## non-vacuity: concrete instances -/
 
 example : axisOverlap 10 10 2 (-3 / 2) = .ok (⟨0, 10⟩, ⟨0, 6⟩) := by decide +kernel
@@ -661,5 +816,10 @@ example : axisOverlap 10 10 (-1) 7 = .ok (⟨0, 7⟩, ⟨0, 7⟩) := by decide +
 example : relativeRois (100, 100) (50, 50) (linTr ⟨1, 0, 103, 0, 1, 10⟩) (linTr ⟨1, 0, -103, 0, 1, -10⟩) 2 1 (some 16)
     = (emptyROI, emptyROI) := by decide +kernel
 example : pickReadScale (1 / 2) (1 / 8) = .ok 1 := by decide +kernel
+-- a quadratic map: the fit at (10, 20) is its tangent map there (a = 2·10/8, b = 0, d = 0, e = 1)
+example : stencilAffine (fun q => (q.1 * q.1 / 8, q.2)) (10, 20) 1 = ⟨5 / 2, 0, -249 / 20, 0, 1, 0⟩ := by decide +kernel
+example : (reprojectNonlinear (50, 60) (20, 30) (linTr ⟨2, 0, 3, 0, 2, 5⟩) (linTr ⟨1 / 2, 0, -3 / 2, 0, 1 / 2, -5 / 2⟩)
+    (fun c => scaleAtPoint (Aff.apply ⟨2, 0, 3, 0, 2, 5⟩) c 1 2) none none).toOption.map
+      (fun p => (p.roiSrc, p.roiDst, p.readShrink)) = some ((⟨4, 46⟩, ⟨2, 60⟩), (⟨0, 20⟩, ⟨0, 29⟩), 2) := by decide +kernel
 
 end OdcGeo.C03
